@@ -148,7 +148,7 @@ def special_check(run, c):
 def strip(c):
     """canonical input of a case: the operations without the oracles"""
     return [c.get("wildcard"), c.get("default")] + [[o["op"], o.get("ns"), o.get("name"), o.get("key"), o.get("type"), o.get("payload"),
-                                                      o.get("salt"), o.get("ann"), o.get("mns")] for o in c.get("ops", [])]
+                                                      o.get("salt"), o.get("ann"), o.get("mns"), o.get("uid")] for o in c.get("ops", [])]
 
 
 def judge(run, cases, res, st):
@@ -244,7 +244,8 @@ def finish(run, st):
                        "configured through the real Configurator 10% in the classes force/mixed) over 2-4 Secrets; types: all 7 supported ones, 6 unsupported; "
                        "payloads: 3 real ed25519 key pairs, mismatched pair, non-PEM, missing keys, wrong PEM block, bad DER, OIDC secrets with forbidden "
                        "characters, duplicate API keys, empty data; classes clean/force (dash-free namespaces, no CA), ca, collide (a-b/c vs a/b-c), casuffix "
-                       "(x as CA vs x-ca.crt), retype, mixed, xns (Secrets of one name in several namespaces, mergeable Ingresses whose minion lives in "
+                       "(x as CA vs x-ca.crt), retype, mixed (every Secret carries a UID; a quarter of the updates and every create after a delete carry a new one: "
+                       "delete-less re-creation, as the same type, another type or invalid, before and after the file was requested), xns (Secrets of one name in several namespaces, mergeable Ingresses whose minion lives in "
                        "another namespace than the master and carries the basic-auth / JWT annotation: every reference must name a file derived from that "
                        "very Secret), plus fixed witness histories of the refutation theorems.  Every fourth history is of the controller "
                        "family (classes ctl, ctl-life, ctl-restart; in the latter two the history begins with an existing cluster -- referenced and "
